@@ -90,6 +90,18 @@ Theorem C14_explicit_symbols :
 Proof. exact explicit_symbols_preserved. Qed.
 Print Assumptions C14_explicit_symbols.
 
+(* symbols=None (all free symbols perturbative): the order is the iteration order of a Python set,
+   a fact of the call ([free_order]); index i counts the i-th symbol of that order.  (A single
+   Symbol passed as [symbols] is the one-element list of C14_explicit_symbols.) *)
+Theorem C14_default_symbols :
+  forall (W : Vals) (free_order : list nat) (Q : npoly W) n,
+  NoDup free_order ->
+  sympy_named_series W [] free_order Q n =
+    (if vzerob W (Q (powers_of free_order n)) then None else Some (EV n (Q (powers_of free_order n)))) /\
+  forall i, i < length free_order -> powers_of free_order n (nth i free_order 0) = nth i n 0.
+Proof. exact default_symbols_order. Qed.
+Print Assumptions C14_default_symbols.
+
 (* _unpack_blocks: element (i, j, n) is grid_n[i][j]; absent orders stay absent *)
 Theorem C14_blocks :
   forall (W : Vals) (s : order -> option (grid W)) i j n,
